@@ -267,7 +267,7 @@ def rule_V4(ctx) -> None:
 
 
 def run(ctx) -> None:
-    for name, fn in (("V1", rule_V1), ("V1b", rule_V1b), ("V2", rule_V2), ("V3", rule_V3), ("V4", rule_V4), ("V5", rule_V5), ("V6", rule_V6), ("D3", presence.rule_D3)):
+    for name, fn in (("V1", rule_V1), ("V1b", rule_V1b), ("V2", rule_V2), ("V3", rule_V3), ("V4", rule_V4), ("V5", rule_V5), ("V6", rule_V6), ("D3", presence.rule_D3), ("V7", presence.rule_V7)):
         ctx.rules_run.append(name)
         fn(ctx)
     ctx.assume("external callees are pure unless in the mutator list; aliases arise only by name binding")
